@@ -4,6 +4,7 @@ import (
 	"fmt"
 	"go/ast"
 	"go/constant"
+	"go/token"
 	"go/types"
 	"sort"
 	"strings"
@@ -119,11 +120,32 @@ func (e *Enum) setIsIota() {
 	e.IsIota = true
 }
 
+// valueSpecAt returns the constant spec containing [pos], or nil
+func valueSpecAt(pa *packages.Package, pos token.Pos) (out *ast.ValueSpec) {
+	for _, file := range pa.Syntax {
+		if pos < file.Pos() || file.End() <= pos {
+			continue
+		}
+		ast.Inspect(file, func(n ast.Node) bool {
+			if spec, ok := n.(*ast.ValueSpec); ok && spec.Pos() <= pos && pos < spec.End() {
+				out = spec
+			}
+			return out == nil
+		})
+	}
+	return out
+}
+
 // fetchConstComment retrieve the comment, not exposed in go/types
 func fetchConstComment(pa *packages.Package, obj *types.Const) string {
 	node := nodeAt(pa, obj.Pos())
-	spec := node.(*ast.ValueSpec)
-	if spec.Comment == nil {
+	spec, isSpec := node.(*ast.ValueSpec)
+	if !isSpec {
+		// in a multi-name spec (const A, B T = 1, 2), the node found for B
+		// is the identifier itself : use the spec declaring it
+		spec = valueSpecAt(pa, obj.Pos())
+	}
+	if spec == nil || spec.Comment == nil {
 		return ""
 	}
 	return strings.TrimSpace(spec.Comment.Text())
